@@ -16,6 +16,8 @@ static PATHS: [AtomicPtr<u8>; SLOTS] = [const { AtomicPtr::new(std::ptr::null_mu
 static LINE1: AtomicPtr<u8> = AtomicPtr::new(std::ptr::null_mut());
 static IS_C07: AtomicBool = AtomicBool::new(false);
 static INSTALLED: AtomicBool = AtomicBool::new(false);
+static CAPS: [AtomicUsize; SLOTS] = [const { AtomicUsize::new(0) }; SLOTS];
+static ONCE: std::sync::Once = std::sync::Once::new();
 
 thread_local! {
     static SLOT: Cell<usize> = const { Cell::new(usize::MAX) };
@@ -89,9 +91,11 @@ extern "C" fn handler(sig: libc::c_int) {
 
 /// Install the handlers (idempotent). `prop` decides how a crash is reported.
 pub fn install(prop: &str) {
-    if INSTALLED.swap(true, Ordering::SeqCst) {
-        return;
-    }
+    // every caller returns only after the one-time set-up is complete
+    ONCE.call_once(|| install_once(prop));
+}
+
+fn install_once(prop: &str) {
     IS_C07.store(prop == "C07", Ordering::SeqCst);
     let line = if prop == "C07" {
         format!("VIOLATION property={prop} replay=")
@@ -102,7 +106,8 @@ pub fn install(prop: &str) {
     let dir = format!("{}/replays/found/{}", crate::common::VERIF, prop);
     let _ = std::fs::create_dir_all(&dir);
     for k in 0..SLOTS {
-        BUFS[k].store(Box::leak(vec![0u8; 16].into_boxed_slice()).as_mut_ptr(), Ordering::SeqCst);
+        BUFS[k].store(Box::leak(vec![0u8; 4096].into_boxed_slice()).as_mut_ptr(), Ordering::SeqCst);
+        CAPS[k].store(4096, Ordering::SeqCst);
         PATHS[k].store(leak_cstr(format!("{dir}/crash-{}-{k}.json", std::process::id())), Ordering::SeqCst);
     }
     unsafe {
@@ -114,6 +119,7 @@ pub fn install(prop: &str) {
             libc::sigaction(sig, &sa, std::ptr::null_mut());
         }
     }
+    INSTALLED.store(true, Ordering::SeqCst);
 }
 
 /// Publish the replay file of the case this thread is about to evaluate.
@@ -124,15 +130,15 @@ pub fn enter(slot: usize, replay_json: &[u8]) {
     SLOT.with(|s| s.set(slot));
     LENS[slot].store(0, Ordering::SeqCst);
     let n = replay_json.len().min(CAP);
-    // grow the (leaked, thread-owned) buffer when needed
-    let cur = BUFS[slot].load(Ordering::Relaxed);
-    thread_local! { static CAPS: Cell<usize> = const { Cell::new(16) }; }
-    let cap = CAPS.with(|c| c.get());
-    let buf = if n > cap {
-        let nb = Box::leak(vec![0u8; n.next_power_of_two()].into_boxed_slice());
-        CAPS.with(|c| c.set(nb.len()));
-        BUFS[slot].store(nb.as_mut_ptr(), Ordering::SeqCst);
-        nb.as_mut_ptr()
+    // grow the (leaked) buffer of this slot when needed; a slot is used by one thread at a time
+    let cur = BUFS[slot].load(Ordering::SeqCst);
+    let cap = CAPS[slot].load(Ordering::SeqCst);
+    let buf = if n > cap || cur.is_null() {
+        let nb = Box::leak(vec![0u8; n.max(4096).next_power_of_two()].into_boxed_slice());
+        let p = nb.as_mut_ptr();
+        CAPS[slot].store(nb.len(), Ordering::SeqCst);
+        BUFS[slot].store(p, Ordering::SeqCst);
+        p
     } else {
         cur
     };
